@@ -164,7 +164,6 @@ def run(chk, w):
     chk.rule("C10-ATOM", "a value read from a shared field in one critical section and written back (modified) in a later one is covered by a lock held exclusively across both (no lost update)")
     found, st = atomic.split_rmw(db)
     chk.extra["atom_stats"] = st
-    chk.floor("rmw_candidates_with_value_flow", st["with_value_flow"], 1)
     seen_k = set()
     for (key, i1, i2, r, wr, lock) in found:
         f = db.E.ctxs[key].fn
